@@ -47,24 +47,7 @@ Example C04_instance :   (* 10.1.2.3 stays inside 10/8 under a constant-1 flippe
   is_prefix (prefix_bits 32 (ipv4 10 0 0 0, 8)) y = true /\ skipn 24 y = skipn 24 (fmt_bits 32 (ipv4 10 1 2 3)) /\ y <> fmt_bits 32 (ipv4 10 1 2 3).
 Proof. vm_compute. repeat split; try reflexivity. discriminate. Qed.
 
-(* the GENERATED constructor (translated from the source on this run) walks the listed prefixes and preserved networks and leaves the memo in a
-   state satisfying the model's invariant with exactly those prefixes pinned: the theorems above are about the object the code builds *)
-Require PyLib G_fn_ip RefIpCommon RefInit.
-Import PyLib.
-Theorem C04_generated_constructor_pins_the_listed_prefixes :
-  forall (H : list bool -> bool) (py_call : pyval -> pyval -> PyLib.res) (clsname : list BinNums.Z) (saltv salterv : pyval) (B : nat) fuel
-         (strs : list pyval) (pa : option (list pyval)) (nets : list pyval) (Ps : list (list bool)) (kw : pyval),
-  kw_lookup kw "salter" (VFun (of_string "_generate_bit_from_hash")) = salterv ->
-  kw_lookup kw "preserve_suffix" VNone = VInt (BinInt.Z.of_nat B) ->
-  Forall2 (fun a n => ip_network a = Normal n) (RefInit.pa_items pa) nets ->
-  Forall2 RefInit.subnet_bits (strs ++ RefInit.pa_items pa) Ps ->
-  exists d0,
-    G_fn_ip.gen_IpAnonymizer____init__ py_call fuel (VObj clsname []) saltv (VList strs) (RefInit.pa_val pa) kw
-    = Normal (VTuple [VNone; RefIpCommon.mkself clsname saltv (VInt 32%Z) RefInit.fmt32 salterv (BinInt.Z.of_nat B) (RefInit.rest_of nets) d0])
-    /\ MemoProofs.Inv H 32 B Ps d0.
-Proof. exact RefInit.gen_constructor_establishes_the_invariant. Qed.
 
-Print Assumptions C04_generated_constructor_pins_the_listed_prefixes.
 Print Assumptions C04_inside_stays_inside.
 Print Assumptions C04_outside_stays_outside.
 Print Assumptions C04_host_bits_verbatim.
